@@ -18,7 +18,6 @@ import (
 	"github.com/synnaxlabs/x/change"
 	"github.com/synnaxlabs/x/errors"
 	"github.com/synnaxlabs/x/kv"
-	"github.com/synnaxlabs/x/signal"
 	"github.com/synnaxlabs/x/version"
 	"go.uber.org/zap"
 )
@@ -98,17 +97,18 @@ func (r *recoveryServer) recoverPeer(
 func runRecovery(ctx context.Context, cfg Config) error {
 	cfg.Instrumentation = cfg.Child("recovery")
 	nodes := cfg.Cluster.Nodes()
-	sCtx := signal.Wrap(ctx, signal.WithInstrumentation(cfg.Instrumentation))
 	cfg.L.Info("recovering lost key-value operations", zap.Int("peer_node_count", len(nodes)-1))
+	// Peers are recovered from one after the other: each peer's operations are applied in one
+	// transaction that only takes an operation if it supersedes what is stored, and that check
+	// has to see what the previous peer's transaction committed. Two peers may hold different
+	// versions of the same key; applied concurrently, the older one could be written last.
+	var err error
 	for _, n := range nodes {
 		if n.Key == cfg.Cluster.HostKey() {
 			continue
 		}
-		sCtx.Go(func(ctx context.Context) error {
-			return runSingleNodeRecovery(ctx, cfg, n)
-		}, signal.WithKeyf("node_%v", n.Key))
+		err = errors.Combine(err, runSingleNodeRecovery(ctx, cfg, n))
 	}
-	err := sCtx.Wait()
 	if err != nil {
 		cfg.L.Error("recovery failed", zap.Error(err))
 	}
@@ -166,6 +166,15 @@ func runSingleNodeRecovery(
 			}
 			count += len(resp.Operations)
 			for _, op := range resp.Operations {
+				// never replace what is stored (or was received from another peer) by an
+				// older operation
+				sup, supErr := supersedes(ctx, tx, op)
+				if supErr != nil {
+					return supErr
+				}
+				if !sup {
+					continue
+				}
 				if err = op.apply(ctx, tx); err != nil {
 					return err
 				}
